@@ -320,6 +320,8 @@ def units(prop, tier):
                     per_buf(m, [s], ['bytes'] if m != 'update' else ['buffer'])
                 else:
                     u([m], s, 'bytes', tag='[forbidden]')
+        u(['_compute_mac'], 'digested')        # idempotence of digest()/verify() rests on its cached-tag path
+        u(['_compute_mac'], 'verified')
     elif prop == 'C01':
         per_buf('verify', PERMITTED['verify'], BUFS if not quick else ['bytes', 'bytearray'])
         u(['_compute_mac'], 'digested')
